@@ -862,8 +862,14 @@ def observer_interference_scenario(ctx):
                 if not hs:
                     continue
                 p.take_wire()
-                with getattr(m, {'rt': 'rt_sample_state_transaction'}.get(kind, f'{kind}_state_transaction'))() as mgr:
-                    w.mutate_state(mgr.get_state(hs[0]), 7)
+                try:
+                    with getattr(m, {'rt': 'rt_sample_state_transaction'}.get(kind, f'{kind}_state_transaction'))() as mgr:
+                        w.mutate_state(mgr.get_state(hs[0]), 7)
+                except Exception as ex:  # noqa: BLE001
+                    problems.append(f'{kind} commit raised {type(ex).__name__}: {str(ex)[:120]} (what an observer wrote into its copy reached the report)')
+                for e in p.capture_errors:
+                    problems.append(f'{kind}: report could not be serialised: {e[:160]}')
+                del p.capture_errors[:]
                 for msg in p.take_wire():
                     rep = parser.parse(msg)
                     for part in rep['parts']:
